@@ -64,6 +64,7 @@ type CodeUtils struct {
 	features      Features          // Available features.
 	namingStyle   styles.Naming     // Naming style.
 	doInitialisms bool              // Make initialisms setting kept event naming style changes.
+	extraMethods  []string          // Methods that another backend adds to every struct-like (reserved in its namespace).
 
 	rootScope   *Scope
 	scopeCache  map[*parser.Thrift]*Scope
